@@ -508,6 +508,22 @@ class IfcC_{uid}(Component):
     def up_c():
       s.t @= s.cfg.tag ^ zext(s.cfg.hdr.a, 8)
 
+class IfcD_{uid}(Component):
+  # purely structural (no block of its own) but it orders its children's blocks explicitly
+  def construct(s, k=3):
+    s.recv = RecvIfcRTL(Bits8)
+    s.send = SendIfcRTL(Bits8)
+    s.cfg = Cfg_{uid}()
+    s.x = IfcB_{uid}(k)
+    s.y = IfcC_{uid}()
+    s.z = IfcB_{uid}()
+    s.recv //= s.x.recv
+    s.x.send //= s.y.recv
+    s.y.send //= s.z.recv
+    s.z.send //= s.send
+    s.add_constraints(U(s.x.get_update_block("up_b")) < U(s.y.get_update_block("up_c")),
+                      U(s.y.get_update_block("up_c")) < U(s.z.get_update_block("up_b")))
+
 class IfcTop_{uid}(Component):
   def construct(s, classes, params=None, ties=None):
     s.recv = RecvIfcRTL(Bits8)
@@ -599,7 +615,7 @@ class ClTop_{uid}(Component):
 
 def gen_template_case(R, c):
   kind = c.choice(["ifc", "cl"])
-  names = ["IfcA", "IfcB", "IfcC"] if kind == "ifc" else ["ClA", "ClB", "ClC"]
+  names = ["IfcA", "IfcB", "IfcC", "IfcD"] if kind == "ifc" else ["ClA", "ClB", "ClC"]
   n = c.randint(1, 3)
   start = [c.choice(names) for _ in range(n)]
   ops = []
